@@ -11,7 +11,7 @@ import (
 // VerifC05RecvWritesOneAck: every accepted receive of a packet addressed to this chain leaves exactly one
 // acknowledgement for it in the transaction's state - whether the callback succeeded or failed.
 func VerifC05RecvWritesOneAck() {
-	w := newXWorld(2)
+	w := newXWorld(2 + rt.Tier())
 	msg := &packettypes.MsgRecvPacket{Packet: rt.Bytes("packetBytes"), ProofCommitment: rt.Bytes("proof"),
 		ProofHeight: clienttypes.Height{RevisionNumber: rt.U64("rev"), RevisionHeight: rt.U64("height")}, Signer: rt.Str("signer")}
 	var p packettypes.Packet
